@@ -24,7 +24,7 @@ DRIVER_MODULES = ["PsutilModel.Model.C08Gen", "PsutilModel.Spec.C08", "PsutilMod
 NEEDS_EXT = True
 TRUSTED = [
     "C08 renderers (Spec/C08.lean): /proc/meminfo `Name:<blanks>value[ kB]`, /proc/vmstat `name value`, /proc/zoneinfo as `low` watermark lines among arbitrary other lines that do not start with `low` once stripped — transcriptions of the kernel's formats, checked against the live files of the sandbox kernel by the harness on every run",
-    "C08 floats: `pagecache / 2`, `float(used) / total * 100` and `round(x, 1)` are modelled by exact integer/rational arithmetic; exact for magnitudes below 2^53 bytes (8 PiB). percent: C08_percent_float_stable (ε explicit) — the double result may differ from the exactly rounded value by one unit in the last place only within ε of a rounding boundary; the harness takes ε = |exact|·2^-51 (two correctly rounded IEEE operations), COUNTS those cases and demands bit-equality with the nearest double of the exactly rounded decimal everywhere else; `round(x, 1)` is taken to be correctly rounded (CPython's dtoa-based float.__round__)",
+    "C08 floats: `pagecache / 2`, `float(used) / total * 100` and `round(x, 1)` are modelled by exact integer/rational arithmetic; exact for magnitudes below 2^53 bytes (8 PiB). percent: C08_percent_stable_within_eps (ε explicit) — the double result may differ from the exactly rounded value by one unit in the last place only within ε of a rounding boundary; the harness takes ε = |exact|·2^-51 (two correctly rounded IEEE operations), COUNTS those cases and demands bit-equality with the nearest double of the exactly rounded decimal everywhere else; `round(x, 1)` is taken to be correctly rounded (CPython's dtoa-based float.__round__)",
     "C08 int(): CPython's base-10 literal grammar on arbitrary bytes (blanks, sign, single underscores between digits; Model/C08Int.lean, compared on ~30 literal shapes in three positions each run). Not modelled: the interpreter-wide 4300-digit limit of int() (sys.set_int_max_str_digits; a figure of more than 4300 digits raises ValueError under the default setting — no kernel prints more than 20). A NEGATIVE literal is where the model stops explicitly (outcome `declined`: the implementation carries on with a negative figure, the kernel prints %lu)",
     "C08 native record: `cext.linux_sysinfo` is scripted with a 7-tuple laid out as arch/linux/mem.c does (facts sysinfoCMembers/sysinfoCFormat, pinned by cfg_good); the real C function is compared once per run with sysinfo(2) read through ctypes (member order, totalswap × mem_unit = SwapTotal of the live /proc/meminfo)",
 ]
@@ -34,7 +34,7 @@ ASSUMPTIONS = [
     "magnitudes below 2^53 bytes so that the implementation's float arithmetic is exact",
 ]
 MANIFEST = {
-    "level_text": "Machine-checked Lean 4 proofs over a model of virtual_memory()/calculate_avail_vmem()/swap_memory()/usage_percent() that starts from the TEXT of /proc/meminfo, /proc/zoneinfo and /proc/vmstat: round-trip theorems (parser ∘ kernel renderer = abstract map, for every entry list, padding, unit suffix, zone layout) and refinement of the documented formulas (C08_vm_refines, C08_swap_refines) for EVERY subset of the optional keys and all magnitudes, with corollaries fields_exact, used, avail_rule (absent or zero MemAvailable, watermark fallback exact incl. int() truncation), avail_in_range, percent (rounded to one decimal of the exact quotient), percent_range, never_fails, missing_warns_exactly, swap formulas/sysinfo fallback/zero totals. Extension: the text layer is total over ARBITRARY bytes with CPython's int() literal grammar — C08_meminfo_line_outcomes, C08_parse_meminfo_outcomes, C08_vm_fails_iff / C08_vm_ok_iff (exact converse of never_fails: which exception, exactly when, incl. the zoneinfo `low` lines only when the estimate reads them), C08_parse_total_outcomes / C08_swap_total_outcomes (never another exception class; swap_memory never KeyError), C08_never_fails_iff; the vmstat loop without the no-clash hypothesis (C08_vmstat_break_on_out/_in, _no_pair, _error; C08_swap_prefix_clash_reads_other_counter proves the hypothesis necessary), C08_swap_vmstat_unreadable (OSError branch for any parseable meminfo), the native sysinfo record (C08_sysinfo_native, C08_swap_sysinfo_bytes: counts × mem_unit, facts from arch/linux/mem.c), floats (C08_percent_float_stable / C08_swap_percent_float_stable, ε explicit) and the module cache (C08_vm_sets_total_phymem, C08_memory_percent_uses_primed_total). Tied to the code by 30 translator facts (keys per variable, factors, guards, prefixes, record layouts, the C tuple layout and its unpacking, `_TOTAL_PHYMEM = ret.total`) feeding the proof obligation cfg_good, and by a differential run of the real front-end functions over a fake procfs rendered by the Lean renderers, exhaustive over all 16384 subsets of the optional keys; malformed and arbitrary text is compared against the theorem-backed characterisation (vmFail evaluated by the driver); percent compared bit-exactly away from rounding boundaries; memory_percent() exercised after virtual_memory() on a changed meminfo.",
+    "level_text": "Machine-checked Lean 4 proofs over a model of virtual_memory()/calculate_avail_vmem()/swap_memory()/usage_percent() that starts from the TEXT of /proc/meminfo, /proc/zoneinfo and /proc/vmstat: round-trip theorems (parser ∘ kernel renderer = abstract map, for every entry list, padding, unit suffix, zone layout) and refinement of the documented formulas (C08_vm_refines, C08_swap_refines) for EVERY subset of the optional keys and all magnitudes, with corollaries fields_exact, used, avail_rule (absent or zero MemAvailable, watermark fallback exact incl. int() truncation), avail_in_range, percent (rounded to one decimal of the exact quotient), percent_range, never_fails, missing_warns_exactly, swap formulas/sysinfo fallback/zero totals. Extension: the text layer is total over ARBITRARY bytes with CPython's int() literal grammar — C08_meminfo_line_outcomes, C08_parse_meminfo_outcomes, C08_vm_fails_iff / C08_vm_ok_iff (exact converse of never_fails: which exception, exactly when, incl. the zoneinfo `low` lines only when the estimate reads them), C08_parse_total_outcomes / C08_swap_total_outcomes (never another exception class; swap_memory never KeyError), C08_never_fails_iff; the vmstat loop without the no-clash hypothesis (C08_vmstat_break_on_out/_in, _no_pair, _error; C08_swap_prefix_clash_reads_other_counter proves the hypothesis necessary), C08_swap_vmstat_unreadable (OSError branch for any parseable meminfo), the native sysinfo record (C08_sysinfo_native, C08_swap_sysinfo_bytes: counts × mem_unit, facts from arch/linux/mem.c), floats (C08_percent_stable_within_eps / C08_swap_percent_float_stable, ε explicit) and the module cache (C08_vm_sets_total_phymem, C08_memory_percent_uses_primed_total). Tied to the code by 30 translator facts (keys per variable, factors, guards, prefixes, record layouts, the C tuple layout and its unpacking, `_TOTAL_PHYMEM = ret.total`) feeding the proof obligation cfg_good, and by a differential run of the real front-end functions over a fake procfs rendered by the Lean renderers, exhaustive over all 16384 subsets of the optional keys; malformed and arbitrary text is compared against the theorem-backed characterisation (vmFail evaluated by the driver); percent compared bit-exactly away from rounding boundaries; memory_percent() exercised after virtual_memory() on a changed meminfo.",
     "level_note": "Trusted: Lean kernel + {propext, Classical.choice, Quot.sound}; the translator; the correspondence harness; kernel-format renderers; float arithmetic modelled exactly (valid below 2^53 bytes). Hypotheses (refinement theorems only): MemTotal/MemFree present; vmstat names distinct and prefix-clash free (proved necessary). Not modelled: int()'s 4300-digit limit; negative literals (explicit `declined` outcome).",
     "technique": "Lean 4 round-trip + refinement proofs (case analysis over key presence, linear arithmetic over Int/Rat) + translator-fed proof obligation + differential correspondence exhaustive over key subsets",
     "design_ref": "DESIGN.md §5 C08",
@@ -226,7 +226,7 @@ def float_eps(exact):
 
 def _near_boundary(exact):
     """is the exact percent within the float error bound of a rounding boundary (an odd multiple of
-    1/20)? — the only place where C08_percent_float_stable allows the double computation to round
+    1/20)? — the only place where C08_percent_stable_within_eps allows the double computation to round
     the other way (by one unit in the last place)"""
     y = exact * 20
     k = y.numerator // y.denominator          # floor
